@@ -33,7 +33,9 @@ EXPLANATION = (
     ' '
     'R-C08.8 mark-evolution-applied checks and records the same label set (same variable, same reaching definitions, check dominates record).'
     ' '
-    'R-C08.9 = R-C07.11.')
+    'R-C08.9 = R-C07.11.'
+    ' '
+    'R-C08.10 the post_migrate/post_syncdb baseline handler builds the Evolution rows of every app returned by get_apps(): no path through one loop iteration avoids the get_evolution_sequence() read.')
 NOT_DECIDED = (
     'Exactly-once over histories of runs (needs executing several runs '
     'against one database).')
@@ -658,7 +660,59 @@ def r9_only_the_executor_ends_transactions(ctx):
     r11_only_the_executor_ends_transactions(ctx, rule_id='R-C08.9')
 
 
+def r10_baseline_records_every_app(ctx):
+    """The baseline installed by the post_migrate / post_syncdb handler (a
+    database set up outside an Evolver run: flush, a plain migrate) says
+    "everything that exists now is applied".  The stored signature it saves
+    has an entry for every app with a models module, so EvolveAppTask.prepare
+    treats each of them as installed; an app whose labels are not recorded at
+    the same time has its whole sequence - SQL evolutions included - executed
+    by the next upgrade, on a fresh install.  Inside the handler's loop over
+    get_apps() the Evolution rows are therefore built for every app: no path
+    through one iteration goes round the get_evolution_sequence() read."""
+    ctx.rule('R-C08.10')
+    p = ctx.program
+    f = p.func('management', '_on_app_models_updated')
+    g = ctx.cfg(f)
+    n = 0
+    for node in g.nodes:
+        for c in node.calls():
+            if call_name(c) != 'get_evolution_sequence':
+                continue
+            for h in g.nodes:
+                if h.kind != 'for' or \
+                        node.id not in loop_body_ids(g, h) | {h.id}:
+                    continue
+                n += 1
+                bad = []
+                for b in [s_ for s_, l in h.succ if l == 'T']:
+                    if b is node:
+                        continue
+                    skip = g.path(b, h, avoid=[node], follow_exc=False)
+                    if skip is not None:
+                        tests = [x for x in skip
+                                 if x.kind in ('test', 'operand') and
+                                 x.ast is not None]
+                        bad.append(' / '.join(
+                            ' '.join(unparse(x.ast).split())
+                            for x in tests) or 'an unconditional jump')
+                if bad:
+                    ctx.finding(f, c, 'the baseline handler records an '
+                                'app\'s evolution labels only when "%s": an '
+                                'app that is skipped has a stored signature '
+                                'but no applied labels, so the next upgrade '
+                                'executes its whole sequence on a freshly '
+                                'installed database' % '; '.join(
+                                    sorted(set(bad))),
+                                key='baseline-recording-conditional')
+                else:
+                    ctx.ok(f, 'every app\'s sequence is recorded by the '
+                           'baseline handler', c)
+    ctx.floor('get_evolution_sequence reads inside the baseline loop', n, 1)
+
+
 def run(ctx):
+    r10_baseline_records_every_app(ctx)
     r9_only_the_executor_ends_transactions(ctx)
     r8_mark_applied_checks_what_it_records(ctx)
     r7_recording_unconditional(ctx)
